@@ -83,7 +83,7 @@ static void rec(const char *scheme, const char *keylabel, const char *variant, c
     vf_statf(1, "cases_%s", scheme);
     g_variant = variant;
     vf_distinct("%s|%s|%s|%s", scheme, keylabel, variant, pos ? pos : "");
-    if (g_verbose_case) fprintf(stderr, "CASE %s key=%s variant=%s pos=%s\n", scheme, keylabel, variant, pos ? pos : "");
+    if (g_verbose_case) { printf("CASE %s key=%s variant=%s pos=%s\n", scheme, keylabel, variant, pos ? pos : ""); fflush(stdout); }
 }
 static void verdict_stat(const char *scheme, int accepted) { vf_statf(1, "%s_%s", scheme, accepted ? "accepted" : "rejected"); }
 
@@ -1853,6 +1853,7 @@ int main(int argc, char **argv)
     g_testkeys = vf_arg("--testkeys", g_testkeys);
     const char *only_scheme = vf_arg("--scheme", NULL);
     char want_unit[120] = "";
+    int replaying = 0;
     if (vf_case) {
         /* s<seed>/<unit id>#<case index> */
         const char *p = vf_case;
@@ -1861,6 +1862,8 @@ int main(int argc, char **argv)
         char *h = strchr(want_unit, '#');
         if (h) { *h = 0; if (h[1]) only_ci = atoi(h + 1); }
         g_verbose_case = 1;
+        replaying = 1;
+        vf_case = NULL; /* keep vf_fork_case capturing the child's stderr so that a sanitizer report is keyed exactly as in the original run */
     }
     if (psCryptoOpen(PSCRYPTO_CONFIG) < 0) { vf_incon("psCryptoOpen failed"); vf_flush(); return 2; }
     RAND_set_rand_method(&drb_meth);
@@ -1870,7 +1873,7 @@ int main(int argc, char **argv)
     long ran = 0;
     for (int i = 0; i < nunits; i++) {
         unit_t *u = &units[i];
-        if (vf_case) { if (strcmp(u->id, want_unit)) continue; }
+        if (replaying) { if (strcmp(u->id, want_unit)) continue; }
         else { if (!vf_mine((long) ((vf_hash(u->id, strlen(u->id)) >> 7) % 1000003))) continue; if (only_scheme && strcmp(only_scheme, u->scheme)) continue; }
         /* RSA keys are generated once in the parent and inherited by the forked units */
         if (u->rk && !rsa_ready(u->rk)) continue;
@@ -1879,7 +1882,7 @@ int main(int argc, char **argv)
         vf_fork_case(run_unit, u, u->scheme, spec, vf_thorough ? 3000 : 600);
         ran++;
     }
-    if (vf_case && !ran) vf_incon("replay spec names no unit: %s", vf_case);
+    if (replaying && !ran) vf_incon("replay spec names no unit: %s", want_unit);
     vf_stat("units", ran);
     vf_flush();
     fflush(NULL);
